@@ -34,6 +34,52 @@ REFERENCE_CONVENTION = {
 REFERENCE_ORDER = list(REFERENCE_CONVENTION)
 
 
+class FakeShutil:
+    """``shutil`` as seen by the bridge: which() answers for the fake
+    solvers (a bridge may probe with which() instead of '--help')."""
+
+    def __init__(self, installed):
+        self._installed = installed
+
+    def __getattr__(self, name):
+        import shutil
+        return getattr(shutil, name)
+
+    def which(self, cmd, mode=None, path=None):
+        return "/fakebin/" + cmd if cmd in self._installed else None
+
+
+def rebind(module, fake):
+    """Point every reference to the real subprocess API inside *module* at
+    *fake* (covers 'import subprocess' and 'from subprocess import Popen').
+    Returns the list of (name, old value) to restore."""
+    import shutil
+    import subprocess as real
+    saved = []
+    names = ("Popen", "run", "call", "check_call", "check_output", "PIPE",
+             "DEVNULL", "STDOUT", "CalledProcessError", "TimeoutExpired",
+             "SubprocessError", "CompletedProcess")
+    for attr, val in list(vars(module).items()):
+        if val is real:
+            saved.append((attr, val))
+            setattr(module, attr, fake)
+        elif val is shutil:
+            saved.append((attr, val))
+            setattr(module, attr, FakeShutil(fake.installed))
+        else:
+            for n in names:
+                if hasattr(real, n) and val is getattr(real, n) and \
+                        n not in ("PIPE", "DEVNULL", "STDOUT"):
+                    saved.append((attr, val))
+                    setattr(module, attr, getattr(fake, n))
+                    break
+        if callable(val) and getattr(val, "__module__", None) == "shutil" \
+                and getattr(val, "__name__", "") == "which":
+            saved.append((attr, val))
+            setattr(module, attr, FakeShutil(fake.installed).which)
+    return saved
+
+
 class SimSubprocess:
     """Namespace object standing in for the ``subprocess`` module."""
 
@@ -52,26 +98,91 @@ class SimSubprocess:
         outer = self
 
         class Popen:
+            pid = 4242
+            returncode = 0
+
             def __init__(self, args, stdin=None, stdout=None, stderr=None,
+                         text=None, universal_newlines=None, encoding=None,
                          **kw):
                 if isinstance(args, str):
                     args = args.split()
-                self.args = list(args)
+                self.args = [str(a) for a in args]
+                self._text = bool(text or universal_newlines or encoding)
+                self._done = None
                 outer._popen(self, stdin, stdout, stderr)
+                p = self
+
+                class _In:
+                    def __init__(self):
+                        self.buf = bytearray()
+                        self.used = False
+
+                    def write(self, b):
+                        self.used = True
+                        if isinstance(b, str):
+                            b = b.encode("utf-8")
+                        self.buf += b
+                        return len(b)
+
+                    def flush(self):
+                        pass
+
+                    def close(self):
+                        pass
+
+                class _Out:
+                    def read(self, *a):
+                        return p._result()[0]
+
+                    def readlines(self):
+                        return p._result()[0].splitlines(True)
+
+                    def __iter__(self):
+                        return iter(self.readlines())
+
+                    def close(self):
+                        pass
+
+                self.stdin = _In() if stdin == PIPE else None
+                self.stdout = _Out() if stdout == PIPE else None
+                self.stderr = None
+
+            def _result(self, input=None):
+                if self._done is None:
+                    if input is None and self.stdin is not None and \
+                            self.stdin.used:
+                        input = bytes(self.stdin.buf)
+                    if isinstance(input, str):
+                        input = input.encode("utf-8")
+                    out, err = outer._communicate(self, input)
+                    if self._text:
+                        out = out.decode("utf-8", "replace") \
+                            if out is not None else None
+                        err = err.decode("utf-8", "replace") \
+                            if err is not None else None
+                    self._done = (out, err)
+                return self._done
 
             def communicate(self, input=None, timeout=None):
-                return outer._communicate(self, input)
+                return self._result(input)
 
             def wait(self, timeout=None):
-                return 0
+                self._result()
+                return self.returncode
 
             def poll(self):
-                return 0
+                return self.returncode
 
             def kill(self):
                 pass
 
-            returncode = 0
+            terminate = kill
+
+            def __enter__(self):
+                return self
+
+            def __exit__(self, *exc):
+                return False
 
         self.Popen = Popen
 
@@ -106,7 +217,9 @@ class SimSubprocess:
 
     def run(self, args, input=None, stdin=None, stdout=None, stderr=None,
             capture_output=False, timeout=None, check=False, **kw):
-        p = self.Popen(args, stdin=stdin, stdout=stdout, stderr=stderr)
+        if capture_output:
+            stdout = stderr = PIPE
+        p = self.Popen(args, stdin=stdin, stdout=stdout, stderr=stderr, **kw)
         out, err = p.communicate(input)
         if not (capture_output or stdout == PIPE):
             out = None
